@@ -43,6 +43,9 @@ type LifeScenario struct {
 	SlowCloseMs        int    `json:"slow_close_ms"`          // closing the socket takes this long (the ping ticker keeps firing meanwhile)
 	HandlerAsksFlag    bool   `json:"handler_asks_connected"` // the gated handler calls Connected() once released, i.e. while the teardown is in progress
 	HandlerPanics      bool   `json:"handler_panics"`         // the gated handler panics (default LogPanic recovery) once released, i.e. during the teardown
+	BgBusy             bool   `json:"bg_busy"`                // a background handler is still at work during the whole teardown (it returns only after DISCONNECTED): teardown must not wait for it
+	CloseFromBg        bool   `json:"close_from_bg"`          // the Close of cause "close" is called by a background handler
+	SilentMs           int    `json:"silent_ms"`              // before the cause the server stays connected but silent for this long, never answering the client's PINGs (Timeout is set to a fifth of it)
 }
 
 type LifeResult struct {
@@ -136,6 +139,9 @@ func runLifeScenario(sc LifeScenario) LifeResult {
 	cfg.Flood = sc.Flood
 	cfg.PingFreq = time.Duration(sc.PingFreqMs) * time.Millisecond
 	cfg.Timeout = 3 * time.Second
+	if sc.SilentMs > 0 {
+		cfg.Timeout = time.Duration(sc.SilentMs/5) * time.Millisecond
+	}
 	conn := client.Client(cfg)
 	if sc.Track {
 		conn.EnableStateTracking()
@@ -197,6 +203,21 @@ func runLifeScenario(sc LifeScenario) LifeResult {
 			}
 		}
 	})
+
+	bgEntered := make(chan struct{}, 4)
+	bgCloseRet := make(chan struct{}, 4)
+	conn.HandleBG("PRIVMSG", client.HandlerFunc(func(c *client.Conn, l *client.Line) {
+		switch l.Text() {
+		case "bgbusy": // a slow background job: ends only once the connection's DISCONNECTED has been delivered (or after 6 s)
+			bgEntered <- struct{}{}
+			waitFor(func() bool { return lg.count("DISCONNECTED") >= 1 }, 6*time.Second)
+		case "bgclose": // e.g. a "!quit" command handled in the background
+			bgEntered <- struct{}{}
+			c.Close()
+			lg.add("close-ret")
+			bgCloseRet <- struct{}{}
+		}
+	}))
 
 	// every backlog line is sent on the first connection: once that connection's DISCONNECTED has been delivered,
 	// none of them may reach a handler any more (a later connection starts from empty queues)
@@ -387,6 +408,17 @@ func runLifeScenario(sc LifeScenario) LifeResult {
 		return res
 	}
 
+	if sc.BgBusy {
+		srv.SendLine(":n!u@h PRIVMSG me :bgbusy")
+		select {
+		case <-bgEntered:
+		case <-time.After(2 * time.Second):
+			res.Notes = append(res.Notes, "background handler was not entered")
+		}
+	}
+	if sc.SilentMs > 0 { // the server says nothing and answers no PING: the link is idle, not dead; whatever the client makes of it, the rest must still work
+		time.Sleep(time.Duration(sc.SilentMs) * time.Millisecond)
+	}
 	// the cause
 	lg.add("cause %s", sc.Cause)
 	closeRets := make(chan struct{}, 16)
@@ -402,7 +434,11 @@ func runLifeScenario(sc LifeScenario) LifeResult {
 	for _, part := range strings.Split(sc.Cause, "+") {
 		switch part {
 		case "close":
-			doClose()
+			if sc.CloseFromBg {
+				srv.SendLine(":n!u@h PRIVMSG me :bgclose")
+			} else {
+				doClose()
+			}
 		case "eof":
 			srv.EOF()
 		case "readerr":
